@@ -311,6 +311,55 @@ Definition gibbs_value (yk sk : T) (vmin vmax : option T) (us : list T) : gbb_re
 End GBB.
 Arguments GOk {T} _ _ _. Arguments GExhausted {T}. Arguments GOverrun {T}.
 
+(* One site of the Gibbs sampler (GibbsUMulti::update / GibbsMMulti::update / GibbsUMultiMono::update):
+     if (!_isConstraintTight(icase, iact, &valsim)) valsim = getSimulate(y, yk, sqrt(vk), ...);
+   with the five kinds of bounds of a sample: free, lower only, upper only, two-sided, hard datum (L = U). *)
+Inductive bkind := KFree | KLower | KUpper | KTwo | KHard.
+Section GIBBS.
+Variable T : Type.
+Variables (tadd tsub tmul tdiv : T -> T -> T) (topp : T -> T).
+Variables (tltb tleb : T -> T -> bool).
+Variable tofQ : Q -> T.
+Variable tfloor : T -> Z.
+Variables (wexp alog texp tlog tsqrt : T -> T).
+Variable tgauss : T -> T -> T.     (* old-style law_gaussian(0,1) as a function of its two uniforms (Law.cpp:142-145) *)
+
+(* AGibbs::_isConstraintTight (AGibbs.cpp:456): both bounds defined and isEqual(vmin, vmax), i.e. |vmin - vmax| <= 1e-10 *)
+Definition constraint_tight (vmin vmax : option T) : option T :=
+  match vmin, vmax with
+  | Some a, Some b => if tleb (tabs T topp tltb tofQ (tsub a b)) (tofQ (1 # 10000000000)) then Some a else None
+  | _, _ => None
+  end.
+
+Definition bounds_kind (vmin vmax : option T) : bkind :=
+  match vmin, vmax with
+  | None, None => KFree
+  | Some _, None => KLower
+  | None, Some _ => KUpper
+  | Some _, Some _ => match constraint_tight vmin vmax with Some _ => KHard | None => KTwo end
+  end.
+
+(* GibbsMulti::getSimulate (GibbsMulti.cpp:118-156), GibbsMultiMono::getSimulate for the first variable:
+     if (!FFFF(vmin)) vmin = (vmin - yk) / sk;   if (!FFFF(vmax)) vmax = (vmax - yk) / sk;
+     if (FFFF(vmin) && FFFF(vmax)) value = yk + sk * law_gaussian();
+     else                          value = yk + sk * law_gaussian_between_bounds(vmin, vmax);           *)
+Definition get_simulate (yk sk : T) (vmin vmax : option T) (us : list T) : gbb_result T :=
+  match vmin, vmax with
+  | None, None =>
+      match us with
+      | u1 :: u2 :: _ => GOk (tadd yk (tmul sk (tgauss u1 u2))) 2 []
+      | _ => GExhausted
+      end
+  | _, _ => gibbs_value T tadd tsub tmul tdiv topp tltb tleb tofQ tfloor wexp alog texp tlog tsqrt yk sk vmin vmax us
+  end.
+
+Definition gibbs_site (yk sk : T) (vmin vmax : option T) (us : list T) : gbb_result T :=
+  match constraint_tight vmin vmax with
+  | Some v => GOk v 0 []
+  | None => get_simulate yk sk vmin vmax us
+  end.
+End GIBBS.
+
 (* Rational approximations of exp, ln, sqrt (about 120 significant bits) for the executable
    instance.  Their accuracy is not part of any theorem: the theorems are about the real instance;
    these only have to be as good as libm for the correspondence run. *)
